@@ -9,10 +9,10 @@ GEN_GROUPS = ["Front"]
 
 GO_TYPES = ["int", "string", "error", "bool", "*Order", "Order", "[]string", "[]Order", "*svc.Client", "svc.Client", "[]svc.Item", "interface{}", "func(a int) string"]
 GO_IMPORTS = [("fmt", None), ("strings", None), ("os", None), ("github.com/acme/shop/svc", None), ("github.com/acme/shop/store", "st"), ("io", "stdio")]
-NAMES_S = ["Order", "Cart", "Repo", "Client", "Engine", "Zebra", "Alpha"]
+NAMES_S = ["Order", "Cart", "Repo", "Client", "Engine", "Zebra", "Alpha", "Überweisung", "X"]
 NAMES_I = ["Store", "Runner", "Closer", "Visitor"]
-NAMES_M = ["Run", "Save", "find", "Close", "Get", "apply", "String"]
-NAMES_F = ["NewOrder", "main", "helper", "Parse", "BuildAll", "run2"]
+NAMES_M = ["Run", "Save", "find", "Close", "Get", "apply", "String", "Größe", "RecalculateOutstandingBalanceForAllCustomersInRegion"]
+NAMES_F = ["NewOrder", "main", "helper", "Parse", "BuildAll", "run2", "süß2"]
 NAMES_V = ["a", "b", "id", "name", "cfg", "items", "out"]
 
 
@@ -226,9 +226,9 @@ def py_file(rng, idx):
     out.append("")
     classes, funcs = [], []
     items = []
-    for c in rng.sample(["Order", "Cart", "Repo", "Client"], rng.choice([0, 1, 2])):
+    for c in rng.sample(["Order", "Cart", "Repo", "Client", "Überweisung", "C"], rng.choice([0, 1, 2])):
         items.append(("class", c))
-    for f in rng.sample(["main", "helper", "build_all", "run2"], rng.choice([0, 1, 2, 3])):
+    for f in rng.sample(["main", "helper", "build_all", "run2", "größe_berechnen", "f"], rng.choice([0, 1, 2, 3])):
         items.append(("func", f))
     rng.shuffle(items)
     for kind, name in items:
@@ -240,7 +240,7 @@ def py_file(rng, idx):
             methods = []
             if rng.random() < 0.15:
                 out.append('    """doc"""')
-            ms = rng.sample(["__init__", "save", "find", "run"], rng.choice([0, 1, 2, 3]))
+            ms = rng.sample(["__init__", "save", "find", "run", "süß", "recalculate_outstanding_balance_for_all_customers_in_region"], rng.choice([0, 1, 2, 3]))
             if not ms:
                 out.append("    pass")
             for m in ms:
